@@ -30,8 +30,8 @@ type c10Scenario struct {
 	StdinFault   string     `json:"stdin_fault"` // none closedpipe ioerr
 	StdinFaultAt int        `json:"stdin_fault_at"`
 	AnswerCuts   []int      `json:"answer_cuts,omitempty"` // every answer frame reaches the runner in pieces cut at these offsets
-	Sync         bool       `json:"sync_stdin,omitempty"` // the input pipe has io.Pipe's semantics (see fakeScript.SyncStdin)
-	Main         string     `json:"main"` // closewait | stop
+	Sync         bool       `json:"sync_stdin,omitempty"`  // the input pipe has io.Pipe's semantics (see fakeScript.SyncStdin)
+	Main         string     `json:"main"`                  // closewait | stop
 	Bound        int        `json:"bound"`
 }
 
@@ -297,6 +297,11 @@ func c10Judge(sc c10Scenario, obs *c10Obs, fp *fakeProc, x *gate.Exec) []gateVer
 			}
 		}
 	}
+	if (sc.Fault == "cut" || sc.Fault == "cut0") && fp.faultFired() && sc.CutBytes > 0 && obs.MainDone && sc.Main != "stop" && !strings.HasPrefix(obs.WaitRet, "err:") {
+		// the client's output ended inside a length prefix or inside a message: not a clean end, whatever the
+		// exit status and whether or not a request was still outstanding
+		add("truncation-reported-as-clean-end", "the client's output stream was cut after %d byte(s) of a message but waitForResponses returned %q", sc.CutBytes, obs.WaitRet)
+	}
 	if obs.PostDone && obs.PostSend == "ok" {
 		add("send-after-finish-accepted", "sendRequest was accepted after the client finished (fault=%s, wait=%s)", sc.Fault, obs.WaitRet)
 	}
@@ -321,7 +326,7 @@ func c10Scenarios(thorough bool) []c10Scenario {
 	if thorough {
 		senderSets = append(senderSets, [][]string{{"a", "b"}, {"c"}}, [][]string{{"a", "b"}, {"a", "c"}}, [][]string{{"a", "b"}, {"c", "d"}})
 	}
-	faults := []string{"none", "exit0", "exit1", "cut", "dup", "unknown", "oversize", "garbage", "stall", "garbage-high", "oversize-max"}
+	faults := []string{"none", "exit0", "exit1", "cut", "cut0", "dup", "unknown", "oversize", "garbage", "stall", "garbage-high", "oversize-max"}
 	for _, ss := range senderSets {
 		total := 0
 		for _, s := range ss {
@@ -340,7 +345,7 @@ func c10Scenarios(thorough bool) []c10Scenario {
 					continue
 				}
 				cuts := []int{0}
-				if f == "cut" {
+				if f == "cut" || f == "cut0" {
 					// message is 4 bytes prefix + 3+ bytes body; cut at every byte
 					cuts = []int{1, 3, 4, 5}
 					if thorough {
@@ -726,4 +731,37 @@ func TestVerifC10CacheCheck(t *testing.T) {
 	if len(r.Samples) == 0 {
 		r.Sample("no scenario in this shard")
 	}
+}
+
+// TestVerifC09ClientRunner: the scenarios in which the client's output stream itself misbehaves (cut at
+// every byte with either exit status, oversized and garbled prefixes, going silent) seen from C09's side:
+// what ReadDelimitedMessage reports at this call site must reach the caller of waitForResponses.
+func TestVerifC09ClientRunner(t *testing.T) {
+	r := rep.New("c09-client-runner")
+	defer r.Write()
+	r.Rule = "the C10 scenarios whose fault is in the framing of the client's output (cut at every byte offset with exit status 0 and non-zero, after k answers incl. all of them; oversized / garbled length prefix; silence) with one and two senders, explored as in c10-gate; oracle as there plus: a cut stream is never reported as a clean end"
+	var scs []c10Scenario
+	for _, sc := range c10Scenarios(rep.Thorough()) {
+		switch sc.Fault {
+		case "cut", "cut0", "oversize", "oversize-max", "garbage-high", "stall":
+		default:
+			continue
+		}
+		if sc.StdinFault != "none" || sc.Sync || len(sc.AnswerCuts) > 0 {
+			continue
+		}
+		total := 0
+		for _, s := range sc.Senders {
+			total += len(s)
+		}
+		if !rep.Thorough() && total > 2 {
+			continue
+		}
+		sc.Bound = 1
+		scs = append(scs, sc)
+	}
+	gateExplore(t, r, scs, 1, func(sc c10Scenario, prefix []int, expect []gate.PointRec) gateRun {
+		x, obs, _, verdicts, leak := c10RunOne(t, sc, prefix, expect)
+		return gateRun{x: x, outcome: c10Outcome(sc, obs), verdicts: verdicts, leak: leak}
+	})
 }
